@@ -409,24 +409,24 @@ Theorem C03_xer_skip_subtree_neutral : forall N f rest d a b, 0 < d ->
 Proof. exact forest_neutral. Qed.
 Print Assumptions C03_xer_skip_subtree_neutral.
 
-(* started behind the opening tag of an unknown element <n>, the skip ends exactly at that element's closing tag, depth 0, for EVERY
-   content; the answer is 1 (caller advances over the closing tag), or 2 when the element itself carries the name N *)
+(* started behind the opening tag of an unknown element <n>, the skip ends exactly at that element's closing tag, depth 0, answer 1 (the
+   caller advances over the closing tag), for EVERY content and EVERY name n - the name N of the element being decoded included *)
 Theorem C03_xer_skip_complete : forall N n kids rest,
   skip_run N (flatf kids ++ TClose n :: rest) 1 0%nat 0%nat =
-  ((if n =? N then 2 else 1), 0, S (ntags (flatf kids)), ((if (n =? N)%Z then 0 else 1) + length (flatf kids))%nat).
+  (1, 0, S (ntags (flatf kids)), (1 + length (flatf kids))%nat).
 Proof. exact skip_complete. Qed.
 Print Assumptions C03_xer_skip_complete.
 
 (* together with the opening tag the caller consumed before: the whole element, nothing more *)
-Theorem C03_xer_skip_consumes_exactly_the_element : forall N n kids rest, n <> N ->
+Theorem C03_xer_skip_consumes_exactly_the_element : forall N n kids rest,
   skip_run N (flatf kids ++ TClose n :: rest) 1 0%nat 0%nat = (1, 0, S (ntags (flatf kids)), (length (flat (XNode n kids)) - 1)%nat).
 Proof. exact skip_consumes_element. Qed.
 Print Assumptions C03_xer_skip_consumes_exactly_the_element.
 
-(* the names inside the subtree are irrelevant: subtrees with the same numbers of tags and tokens are skipped alike *)
-Theorem C03_xer_skip_names_irrelevant : forall N n kids1 kids2 rest1 rest2,
+(* the names are irrelevant, the skipped element's own too: subtrees with the same numbers of tags and tokens are skipped alike *)
+Theorem C03_xer_skip_names_irrelevant : forall N n1 n2 kids1 kids2 rest1 rest2,
   ntags (flatf kids1) = ntags (flatf kids2) -> length (flatf kids1) = length (flatf kids2) ->
-  skip_run N (flatf kids1 ++ TClose n :: rest1) 1 0%nat 0%nat = skip_run N (flatf kids2 ++ TClose n :: rest2) 1 0%nat 0%nat.
+  skip_run N (flatf kids1 ++ TClose n1 :: rest1) 1 0%nat 0%nat = skip_run N (flatf kids2 ++ TClose n2 :: rest2) 1 0%nat 0%nat.
 Proof. exact skip_names_irrelevant. Qed.
 Print Assumptions C03_xer_skip_names_irrelevant.
 
@@ -437,17 +437,17 @@ Proof. exact skip_seed_refuted. Qed.
 Print Assumptions C03_xer_skip_name_sensitive_variant_refuted.
 
 (* the whole extensions section as SEQUENCE_decode_xer / SET_decode_xer walk it (phases 1 and 3): ANY number of unknown additions with
-   arbitrary subtrees, then the closing tag of the element being decoded -> RC_OK, everything consumed.  Side conditions: the additions
-   do not carry a known member's name, and an addition written with separate opening and closing tags does not carry the name N itself *)
+   arbitrary subtrees, then the closing tag of the element being decoded -> RC_OK, everything consumed.  Side condition: the additions
+   do not carry a known member's name (an addition may carry the name N itself) *)
 Theorem C03_xer_extensions_section_complete : forall N known f rest k,
-  forallb (root_unknown known) f = true -> forallb (root_not_encl N) f = true ->
+  forallb (root_unknown known) f = true ->
   ext_run N known (flatf f ++ TClose N :: rest) Ph1 k = XDone (length (flatf f) + 1 + k)%nat.
 Proof. exact ext_section_complete. Qed.
 Print Assumptions C03_xer_extensions_section_complete.
 
-(* ... the second side condition is needed (finding C03-xer-unknown-addition-named-like-enclosing): <0><0>text</0></0> ends early *)
-Theorem C03_xer_extensions_section_own_name_refuted : exists N f rest,
-  forallb (root_unknown (fun _ => false)) f = true /\
-  ext_run N (fun _ => false) (flatf f ++ TClose N :: rest) Ph1 0%nat <> XDone (length (flatf f) + 1)%nat.
-Proof. exact ext_section_own_name_refuted. Qed.
-Print Assumptions C03_xer_extensions_section_own_name_refuted.
+(* ... in particular the addition that is called like the element it sits in, with any content (the documents of the former finding
+   C03-xer-unknown-addition-named-like-enclosing, repaired by fix 01 of notes/fixes/I): <N><N>..</N></N> is read to its end *)
+Theorem C03_xer_extensions_section_own_name : forall N kids rest,
+  ext_run N (fun _ => false) (flat (XNode N kids) ++ TClose N :: rest) Ph1 0%nat = XDone (length (flat (XNode N kids)) + 1)%nat.
+Proof. exact ext_section_own_name. Qed.
+Print Assumptions C03_xer_extensions_section_own_name.
